@@ -43,3 +43,23 @@ func VerifHarness_C05_inbound_mtu() {
 	vCover(!whole, "C05.cover_truncated")
 	vReach("end")
 }
+
+// Large stream frames and a raised InboundMTU: whatever the configured MTU, a frame of any size read through a
+// stream framer (which reports the frame's full size) is either handled or dropped - never a crash of the listener.
+//
+//verif:props=C09,C05 unwind=20 timeout=60000 bounds="InboundMTU 1..4096 (symbolic); one ChannelData-looking frame of 4..4095 bytes (symbolic size) on a stream listener, then the connection ends"
+func VerifHarness_C09_large_frame_on_a_stream_listener() {
+	mtu := vIntRange(1, 4096)
+	env := allocation.VNewManager(false, false)
+	s := &Server{log: &allocation.VLogger{}, inboundMTU: mtu, nonceHash: vOKNonce{}}
+	frame := vBigBytes(4095, 4)
+	vAssume(len(frame) >= 4)
+	vAssume(vAt(frame, 0) == 0x40) // a channel number nobody bound: the handler rejects it cheaply
+	conn := &allocation.VPacketConn{Name: "listen", Local: allocation.VUDPAddr4(), Stream: true,
+		Script: []allocation.VDatagram{{Data: frame, From: allocation.VUDPAddr4()}}}
+	s.readLoop(conn, env.M, nil)
+	vAssert(len(conn.Writes) == 0, "C09.channeldata_is_never_answered")
+	vAssert(vLocksHeld() == 0, "C09.read_loop_leaves_no_lock_held")
+	vCover(len(frame) > 1600, "C09.cover_frame_larger_than_1600_bytes")
+	vReach("end")
+}
